@@ -161,8 +161,13 @@ def real(obj, store, skip_save, skip_load, tag):
     sink = io.StringIO()
     try:
         with contextlib.redirect_stdout(sink):
-            obj.save(path, store=store, skip=skip_save)
-            loaded = serialize.load(path, skip=skip_load)
+            if isinstance(tag, int) and tag % 3 == 2 or (isinstance(tag, str) and len(tag) % 3 == 2):
+                # positional call forms: save(path, mode, store, skip), load(path, skip); str and Path targets
+                obj.save(pathlib.Path(path), "w", store, skip_save)
+                loaded = serialize.load(pathlib.Path(path), skip_load)
+            else:
+                obj.save(path, store=store, skip=skip_save)
+                loaded = serialize.load(path, skip=skip_load)
         return "ok", sc.observe(loaded)
     except Exception as e:  # noqa
         return "err", type(e).__name__ + ":" + str(e)[:150]
@@ -274,6 +279,17 @@ def ptycho_stream(ctx):
     import numpy as np
     with contextlib.redirect_stdout(io.StringIO()):
         prob = pt.make_ptycho(scan=(4, 3), roi=(8, 8), seed=0, rng_seed=7)
+    import inspect
+    from quantem.diffractive_imaging.ptychography import Ptychography
+    sig = {"Ptychography.save": list(inspect.signature(Ptychography.save).parameters),
+           "AutoSerialize.save": list(inspect.signature(serialize.AutoSerialize.save).parameters),
+           "load": list(inspect.signature(serialize.load).parameters)}
+    want = {"Ptychography.save": ["self", "path", "mode", "store", "skip", "compression_level", "save_raw_data", "verbose"],
+            "AutoSerialize.save": ["self", "path", "mode", "store", "skip", "compression_level"], "load": ["path", "skip"]}
+    ctx.count()
+    if sig != want:
+        # the positional call forms below rely on this parameter order
+        ctx.disagree("signatures", {"ptycho": True, "signatures": True}, want, sig, note="parameter order of the save()/load() entry points")
     plain = [k for k, v in vars(prob).items() if not isinstance(v, torch.nn.Module) and k not in ("_dset", "dset")]
     tmap = {"list": list, "dict": dict, "Tensor": torch.Tensor, "ndarray": np.ndarray, "str": str, "float": float}
     rng = ctx.rng.fork(4242)
@@ -299,7 +315,10 @@ def ptycho_stream(ctx):
         ctx.count()
         try:
             with contextlib.redirect_stdout(io.StringIO()):
-                prob.save(path, store=store, skip=skip_arg, save_raw_data=raw, verbose=False)
+                if j % 3 == 2:
+                    prob.save(path, "w", store, skip_arg, 4, raw, False)      # positional form
+                else:
+                    prob.save(path, store=store, skip=skip_arg, save_raw_data=raw, verbose=False)
                 back = serialize.load(path)
         except Exception as e:  # noqa
             ctx.pred_fail(f"ptycho-save-raises:{type(e).__name__}", "Ptychography.save/load with skip raised", case, observed=str(e)[:200], required="ok")
